@@ -208,3 +208,39 @@ package pmm
 //@   ensures pool: mem32(addrof(region)+16) == 1 ==> poolIndex == old(poolIndex) + 1 && alloc.pools[old(poolIndex)].startFrame == regStart(addrof(region)) && alloc.pools[old(poolIndex)].endFrame == regEnd(addrof(region)) && alloc.pools[old(poolIndex)].freeCount == uint32(regEnd(addrof(region)) - regStart(addrof(region)) + 1)
 //@   ensures bitmap: mem32(addrof(region)+16) == 1 ==> alloc.pools[old(poolIndex)].freeBitmapHdr.Data == old(bitmapStartAddr) && alloc.pools[old(poolIndex)].freeBitmapHdr.Cap == alloc.pools[old(poolIndex)].freeBitmapHdr.Len && bitmapStartAddr == old(bitmapStartAddr) + uintptr(alloc.pools[old(poolIndex)].freeBitmapHdr.Len)*8
 //@   ensures sized: mem32(addrof(region)+16) == 1 ==> alloc.pools[old(poolIndex)].freeBitmapHdr.Len >= 0 && uint64(alloc.pools[old(poolIndex)].freeBitmapHdr.Len)*64 >= uint64(regEnd(addrof(region)) - regStart(addrof(region))) + 1 && uint64(alloc.pools[old(poolIndex)].freeBitmapHdr.Len)*64 < uint64(regEnd(addrof(region)) - regStart(addrof(region))) + 1 + 64
+
+// ---- hand-over from the boot allocator (C01, C02, C03) -----------------------------------------
+// The boot allocator as its replay sees it. ABSTRACTION (assumed here; the per-entry step it
+// summarises is proved above, the fold over the memory map is not): a successful call hands out
+// the new cursor - a frame outside the kernel image, above every frame handed out before - and
+// adds it to the ghost set `handed`; a failed call returns InvalidFrame and changes nothing.
+//@ ghost handed map[mm.Frame]bool
+//@ ghost noFrames map[mm.Frame]bool
+//@ axiom emptySet(x mm.Frame): !noFrames[x]
+//@ func (alloc *BootMemAllocator) AllocFrame~callers() (f mm.Frame, err *kernel.Error)
+//@   trusted
+//@   modifies alloc.allocCount, alloc.lastAllocFrame, handed
+//@   ensures ok: err == nil ==> alloc.allocCount == old(alloc.allocCount) + 1 && f == alloc.lastAllocFrame && handed == upd(old(handed), f, true) && !inKernel(alloc, f) && f < 0x10000000000000 && (old(alloc.allocCount) > 0 ==> f > old(alloc.lastAllocFrame))
+//@   ensures fail: err != nil ==> f == mm.InvalidFrame && alloc.allocCount == old(alloc.allocCount) && alloc.lastAllocFrame == old(alloc.lastAllocFrame) && handed == old(handed)
+
+// reserveEarlyAllocatorFrames replays the boot allocator from its reset state (the ghost set
+// starts empty) and reserves every frame it hands out, in the pool that holds it: afterwards a
+// frame's bit is set exactly if it was set before (kernel frames) or the frame was handed out
+//@ pred bitsAre(a *BitmapAllocator) = forall(q, int, g, uint64, 0 <= q && q < len(a.pools) && g < nfr(pool(a, q)) ==> bitOf(bmc(pool(a, q)), bmb(pool(a, q)), g) == ite(handed[pool(a, q).startFrame + mm.Frame(g)], 1, old(bitOf(bmc(pool(a, q)), bmb(pool(a, q)), g))))
+//@ pred handedOK() = forall(x, mm.Frame, handed[x] ==> bootMemAllocator.allocCount > 0 && x <= bootMemAllocator.lastAllocFrame && !inKernel(&bootMemAllocator, x))
+//@ func (alloc *BitmapAllocator) reserveEarlyAllocatorFrames()
+//@   property C01 C02 C03
+//@   requires wfAlloc(alloc)
+//@   requires kernelonly: forall(q, int, g, uint64, 0 <= q && q < len(alloc.pools) && g < nfr(pool(alloc, q)) && bitOf(bmc(pool(alloc, q)), bmb(pool(alloc, q)), g) == 1 ==> inKernel(&bootMemAllocator, pool(alloc, q).startFrame + mm.Frame(g)))
+//@   at entry: ghost handed = noFrames
+//@   at entry: use forall(x, mm.Frame, emptySet(x))
+//@   modifies bootMemAllocator.allocCount, bootMemAllocator.lastAllocFrame, handed, alloc.reservedPages, framePool.freeCount, elems(uint64)
+//@   ensures layout: layoutSame(alloc)
+//@   ensures wf: wfAlloc(alloc)
+//@   ensures count: bootMemAllocator.allocCount <= old(bootMemAllocator.allocCount)
+//@   ensures bits: bitsAre(alloc)
+//@   ensures handed: handedOK()
+//@   loop 1 (i < allocCount) invariant i <= allocCount && allocCount == old(bootMemAllocator.allocCount) && bootMemAllocator.allocCount <= i && layoutSame(alloc) && wfAlloc(alloc)
+//@   loop 1 invariant bits: bitsAre(alloc)
+//@   loop 1 invariant handed: handedOK()
+//@   loop 1 use forall(x, mm.Frame, emptySet(x))
